@@ -312,6 +312,25 @@ def build(tier, seed):
                         c = hier.make_case(spec, n_ids, seed)
                         c['early'] = True
                         red.append(c)
+    # the population model object was used for another number of individuals before
+    # (reduced models without a heterogeneous part, and unwrapped models of all kinds)
+    for base in (rp.Comp([rp.G(1), rp.P(1), rp.LN(1, False)]),
+                 rp.Comp([rp.Cov(rp.G(1)), rp.LN(1), rp.P(1)]),
+                 rp.Comp([rp.G(1, False), rp.P(2)])):
+        for k_b, n_ids in ((3, 1), (2, 1), (1, 2), (3, 2)):
+            n = rp.n_top(base, n_ids)
+            full = popvals.top_values(base, n_ids, seed, positive=True)
+            for idx in [(i,) for i in range(n)] + [(0, n - 1)]:
+                c = hier.make_case(rp.Red(base, {i: full[i] for i in idx}), n_ids,
+                                   seed)
+                c['used_before'] = k_b
+                red.append(c)
+    for spec in hier.structures(3, ['G', 'LNnc', 'P', 'H', 'Cov(G)']):
+        if spec['kind'] == 'Comp' and len(spec['parts']) == 2:
+            for k_b, n_ids in ((3, 1), (1, 2)):
+                c = hier.make_case(spec, n_ids, seed)
+                c['used_before'] = k_b
+                cases.append(c)
     # nested compositions: a composed model inside a composed model, first / last
     nest = []
     inner_kinds = ['G', 'Gnc', 'LNnc', 'P', 'H', 'Cov(G)']
@@ -428,3 +447,4 @@ META['level_text'] += (
     ' Also: covariate models sharing one base object, scales fixed at zero, nobody '
     'shifted (zero covariates / coefficients), covariates supplied to models that n'
     'eed none, repeated name reads before evaluation.')
+META['level_text'] += (' Wave 9: population model objects that served a hierarchical log-likelihood of another number of individuals before.')
